@@ -39,7 +39,7 @@ func GenC08(t *rapid.T) *C08Case {
 	cfg := tfTreeCfg()
 	cfg.MaxDepth = 5
 	// favour depth >= 2
-	root := tfTreeRoot(t)
+	root := tfTreeRootD(t, oneIn(t, 3, "distractors")) // one tree in three also holds the empty key and keys with sigils
 	if root.Depth() < 3 && drawInt(t, 0, 3, "deepen") > 0 {
 		inner := GenChain(t, cfg, 4)
 		if root.K == KList {
